@@ -132,6 +132,22 @@ def _subst(v, env):
     return subst(v, env)
 
 
+def _subst_closure_params(it, cenv):
+    """Inside a closure literal its parameters appear as local variables / parameter atoms: replace them by the values the
+    helper passes when it calls the closure."""
+    def rw(v, d=0):
+        if isinstance(v, list):
+            return [rw(x, d + 1) for x in v]
+        if not isinstance(v, dict) or d > 80:
+            return v
+        if v.get('k') == 'var' and v.get('name') in cenv and (v.get('v') is None or (isinstance(v.get('v'), dict) and v['v'].get('k') in ('elem', 'atom', 'param', None))):
+            return cenv[v['name']]
+        if v.get('k') == 'atom' and v.get('root') in cenv and not v.get('path'):
+            return cenv[v['root']]
+        return {k: (rw(x, d + 1) if isinstance(x, (dict, list)) else x) for k, x in v.items()}
+    return rw(it)
+
+
 def _result(G):
     """Result value of a function: its tail, or — with early returns — the alternatives `return`ed values + tail.  The guard
     frames of each early return are kept next to the alternatives (`alt_guards`), so that a specialisation of the result
@@ -195,7 +211,11 @@ def view(ctx, f, depth=3, stop=(), _stack=(), force=()):
                 if len(inner) != 1:
                     continue
                 extra = [fr for fr in _subst(inner[0].get('guard', []), env) if fr.get('k') in ('if', 'arm', 'for', 'while', 'loop')]
-                if not extra:
+                # … and the closure's parameters are the arguments of that call
+                cparams = [(p_.get('names') or ['_'])[0] for p_ in clo.get('params', [])]
+                cargs = _subst(inner[0].get('args', []), env)
+                cenv = {n: a_ for n, a_ in zip(cparams, cargs) if n and n != '_'}
+                if not extra and not cenv:
                     continue
                 for L in LISTS:
                     new_l = []
@@ -203,7 +223,9 @@ def view(ctx, f, depth=3, stop=(), _stack=(), force=()):
                         gd = it.get('guard', []) if isinstance(it, dict) else []
                         ix = next((i for i, fr in enumerate(gd) if fr.get('k') == 'closure' and fr.get('id') == clo.get('id')), None)
                         if ix is not None and not it.get('_clo_' + str(clo.get('id'))):
-                            it = dict(it, guard=list(gd[:ix]) + [dict(fr, via_closure_param=pn) for fr in extra] + list(gd[ix:]))
+                            if cenv:
+                                it = _subst_closure_params(it, cenv)
+                            it = dict(it, guard=list(gd[:ix]) + [dict(fr, via_closure_param=pn) for fr in extra] + list(it.get('guard', gd)[ix:]))
                             it['_clo_' + str(clo.get('id'))] = True
                         new_l.append(it)
                     out[L] = new_l
